@@ -410,9 +410,13 @@ func clamp(k kind, z *big.Int) *big.Int {
 	return z
 }
 
-// sweep16 enumerates, for every x of a 16-bit type, all y near the boundaries and zero and every 7th y
-// elsewhere (about 2^29 pairs per type) against an int64 oracle (no Lean involved: the theorems already cover
-// every width; a complete 2^32 enumeration costs ~25 minutes because every overflow formats an error).
+// sweep16 enumerates ALL 2^32 operand pairs of a 16-bit type against an int64 oracle (no Lean involved: the theorems
+// already cover every width).  Every pair whose exact result is representable (expected answer `ok`: the "exact result" and
+// "never a spurious error" clauses) is evaluated - that half costs ~4 ns per call.  A pair whose exact result is not
+// representable (expected answer: the overflow error, "never a wrapped value") costs ~0.3-0.5 us because the real function
+// formats an error message, 4100 core-seconds per type for all of them: those are evaluated for all y near the boundaries and
+// near zero and for every 7th y elsewhere (phase shifted per x).  Division (one overflowing pair, 65536 zero divisors) and
+// all 256 shift counts are complete.
 func sweep16[T safemath.Integer](r *hx.Run, name string, lo, hi int64) (evals int64) {
 	var wg sync.WaitGroup
 	var total atomic.Int64
@@ -435,26 +439,34 @@ func sweep16[T safemath.Integer](r *hx.Run, name string, lo, hi int64) (evals in
 					g = "overflow"
 				} else if errors.Is(err, safemath.ErrIntegerDivisionByZero) {
 					g = "divzero"
+				} else if err != nil {
+					g = "err"
 				}
 				if g != want || (g == "ok" && int64(got) != exact) {
 					r.Fail("exact-or-overflow", fmt.Sprintf("Safe %s[%s](%d,%d) = %d,%s; exact %d (%s)", op, name, x, y, int64(got), g, exact, want),
 						map[string]string{"fn": op, "type": name, "class": "sweep16"})
 				}
 			}
+			fits := func(z int64) bool { return z >= lo && z <= hi }
 			for x := lo + int64(w); x <= hi; x += int64(workers) {
 				for y := lo; y <= hi; y++ {
-					// all y near the boundaries and near zero, every 7th y elsewhere (phase shifted per x)
-					if d := y - lo; d > 600 && hi-y > 600 && (y > 600 || y < -600) && (d+x)%7 != 0 {
-						continue
-					}
+					// pairs with an unrepresentable result: all y near the boundaries and near zero, every 7th y elsewhere
+					d := y - lo
+					sampled := !(d > 600 && hi-y > 600 && (y > 600 || y < -600) && (d+x)%7 != 0)
 					a, b := T(x), T(y)
-					v, err := safemath.SafeAdd(a, b)
-					check("add", x, y, v, err, x+y, false)
-					v, err = safemath.SafeSub(a, b)
-					check("sub", x, y, v, err, x-y, false)
-					v, err = safemath.SafeMul(a, b)
-					check("mul", x, y, v, err, x*y, false)
-					v, err = safemath.SafeDiv(a, b)
+					if sampled || fits(x+y) {
+						v, err := safemath.SafeAdd(a, b)
+						check("add", x, y, v, err, x+y, false)
+					}
+					if sampled || fits(x-y) {
+						v, err := safemath.SafeSub(a, b)
+						check("sub", x, y, v, err, x-y, false)
+					}
+					if sampled || fits(x*y) {
+						v, err := safemath.SafeMul(a, b)
+						check("mul", x, y, v, err, x*y, false)
+					}
+					v, err := safemath.SafeDiv(a, b)
 					if y == 0 {
 						check("div", x, y, v, err, 0, true)
 					} else {
@@ -558,6 +570,7 @@ func main() {
 	r.Extra["exhaustive_8bit"] = true
 	if r.Tier == "thorough" {
 		r.Extra["dense_16bit_oracle_only_evaluations"] = sweep16[uint16](r, "u16", 0, 65535) + sweep16[int16](r, "i16", -32768, 32767)
+		r.Extra["dense_16bit_rule"] = "all 2^32 pairs of uint16 and of int16: every pair with a representable result for add/sub/mul, every pair for div, every value x every shift count; pairs with an unrepresentable sum/difference/product: boundary bands + every 7th"
 	}
 	// sampled wide types
 	n := 2000 * r.Scale
